@@ -22,6 +22,7 @@ package main
 import (
 	"bytes"
 	"encoding/hex"
+	"encoding/json"
 	"fmt"
 	"io"
 	"os"
@@ -76,12 +77,17 @@ type tT struct {
 	verdict map[string]string // script name -> PASS | FAIL | SKIP | PANIC
 	fatal   []string
 	verbose bool // testing -v: run() lists the environment before the first line
+	cur     string            // the script being run (RunT runs them one after the other)
+	logs    map[string]string // what each script handed to T.Log
 }
 
 func (t *tT) Skip(...any)    { panic(skipRun) }
 func (t *tT) Fatal(a ...any) { t.fatal = append(t.fatal, fmt.Sprint(a...)); panic(failedRun) }
 func (t *tT) Parallel()      {}
 func (t *tT) Log(a ...any) {
+	if t.logs != nil && t.cur != "" {
+		t.logs[t.cur] += fmt.Sprintln(a...)
+	}
 	if os.Getenv("TSPARSE_DEBUG") != "" {
 		fmt.Fprintln(os.Stderr, a...)
 	}
@@ -90,6 +96,8 @@ func (t *tT) FailNow()       { panic(failedRun) }
 func (t *tT) Verbose() bool  { return t.verbose }
 func (t *tT) Run(name string, f func(testscript.T)) {
 	v := "PASS"
+	t.cur = name
+	defer func() { t.cur = "" }()
 	func() {
 		defer func() {
 			switch e := recover(); e {
@@ -143,6 +151,8 @@ type script struct {
 	bare bool
 	// verbose: run with testing.Verbose() true, i.e. with the environment listing at the start
 	verbose bool
+	// keepLog: keep what the script hands to T.Log (the listing scenario reads the env listing from it)
+	keepLog bool
 }
 
 // setupEdit applies the script's Setup mode to the variable list.
@@ -204,6 +214,7 @@ type scriptObs struct {
 	cd      string
 	inv     map[int][][]string
 	seq     [][]string // rec: every invocation, in order
+	log     string     // what the script handed to T.Log (kept only when the script asks for it)
 	probes  map[int][]string
 	child   map[int]*childObs
 	verdict string
@@ -343,6 +354,9 @@ func runImpl(work string, scripts []*script, continueOnError bool) []*scriptObs 
 	t := &tT{verdict: map[string]string{}}
 	for _, sc := range scripts {
 		t.verbose = t.verbose || sc.verbose
+		if sc.keepLog {
+			t.logs = map[string]string{}
+		}
 	}
 	p := testscript.Params{
 		Files:           files,
@@ -377,6 +391,7 @@ func runImpl(work string, scripts []*script, continueOnError bool) []*scriptObs 
 	}()
 	for i, n := range names {
 		obs[i].verdict = t.verdict[n]
+		obs[i].log = t.logs[n]
 		if obs[i].verdict == "" {
 			obs[i].verdict = "NOT-RUN " + strings.Join(t.fatal, "; ")
 		}
@@ -391,6 +406,7 @@ type modelObs struct {
 	lines  map[int]string // H/T/L items: "fail" | "args w*"; C items: true|false
 	probes map[int][]string
 	child  map[int]*childObs
+	hist   string // answer of histholds at the end of the script
 }
 
 func hexes(ws []string) string {
@@ -489,6 +505,9 @@ func runModel1(m *common.Model, scripts []*script, obs []*scriptObs) ([]*modelOb
 				slots = append(slots, slot{s, i, true})
 			}
 		}
+		// the requests of this script read as a history: hrun reproduces the state, history_holds is true
+		reqs = append(reqs, strings.TrimSpace("histholds "+hexes(append(append([]string{}, sc.names[:min(len(sc.names), 6)]...), "PWD"))))
+		slots = append(slots, slot{s, -2, false})
 	}
 	ans, err := m.Ask(reqs)
 	if err != nil {
@@ -499,6 +518,9 @@ func runModel1(m *common.Model, scripts []*script, obs []*scriptObs) ([]*modelOb
 		out[s] = &modelObs{holds: map[int]string{}, lines: map[int]string{}, probes: map[int][]string{}, child: map[int]*childObs{}}
 	}
 	for j, sl := range slots {
+		if sl.i == -2 {
+			out[sl.s].hist = ans[j]
+		}
 		if sl.i < 0 {
 			continue
 		}
@@ -996,6 +1018,9 @@ type mismatch struct {
 
 func compareScript(sc *script, o *scriptObs, mo *modelObs) []mismatch {
 	var out []mismatch
+	if mo.hist != "" && mo.hist != "true" {
+		out = append(out, mismatch{len(sc.items) - 1, "history_holds", mo.hist, "", "the model violates the history statements on this script read as a history of commands (model-side witness), or hrun of the history is not the state the driver reached step by step"})
+	}
 	for i, it := range sc.items {
 		switch it.kind {
 		case 'T':
@@ -2272,6 +2297,20 @@ func main() {
 		sort.Strings(ents)
 		var scs []*script
 		for _, e := range ents {
+			if strings.HasSuffix(e, ".json") {
+				// a script-level case: {"mode": "long-lines" | "history" | "listing", "spec": ...}
+				if b, err := os.ReadFile(e); err == nil {
+					var c struct {
+						Mode string          `json:"mode"`
+						Spec json.RawMessage `json:"spec"`
+					}
+					if json.Unmarshal(b, &c) == nil && c.Mode != "" {
+						res.Count("src:corpus")
+						rn.replay(common.Violation{Oracle: "corpus", Key: "corpus:" + filepath.Base(e), Input: map[string]string{"mode": c.Mode, "spec": string(c.Spec), "corpus_file": filepath.Base(e)}})
+					}
+				}
+				continue
+			}
 			if sc, ok := rn.corpusScript(e); ok {
 				scs = append(scs, sc)
 				res.Count("src:corpus")
@@ -2325,10 +2364,12 @@ func main() {
 
 	// 3b. the script level: long lines at every position of multi-line scripts, histories of commands
 	t0 := time.Now()
-	rn.longLines(r.Fork())
+	nLongScripts := rn.longLines(r.Fork())
 	t1 := time.Now()
-	rn.histories(r.Fork())
-	res.Notes = append(res.Notes, fmt.Sprintf("script level: long lines %.1fs, histories %.1fs", t1.Sub(t0).Seconds(), time.Since(t1).Seconds()))
+	nHistories := rn.histories(r.Fork())
+	t2 := time.Now()
+	nListings := rn.listings(r.Fork())
+	res.Notes = append(res.Notes, fmt.Sprintf("script level: long lines %.1fs, histories %.1fs, listings %.1fs", t1.Sub(t0).Seconds(), t2.Sub(t1).Seconds(), time.Since(t2).Seconds()))
 
 	// 4. the standard-library models on their own
 	rn.stdlibChecks(r.Fork(), nStd)
@@ -2343,7 +2384,10 @@ func main() {
 		"Params.Setup also rewrites / removes / inserts / duplicates / moves predefined entries (six modes), with the values known by construction; oracles without the model: dollar-var ($$ ${$} ${$@R}, after env '$=v', and in the child), comment-ends-line (# glued to a word, a quoted chunk, a reference), quote-roundtrip, plain-split, multi-chunk (words of 3-7 quoted / unquoted chunks and references whose literals and values hold $NAME), expand-once, regex-exact, latest-wins, child-agrees, child-pwd; then %d strings each for quote_meta / utf8_ok / re_literal vs regexp, regexp/syntax, unicode/utf8 and os_expand vs os.Expand. "+
 		"after every test line the model is asked c02_holds_on (the boolean form of the statements) for the line and a name/value of the case; "+
 		"%d scripts with one cmp/cmpenv line each (second file a template with $K ${K} ${K@R} $$ and exotic forms, first file the expansion known by construction / the raw text / a perturbation / a reference itself, verdict by construction and against do_cmd_cmp) and %d scripts passing variable-held file names (blanks, quotes, $, #, tab, CR) to cp / exists / stdin, with a must-fail control; env K=$OTHER chains are followed by the latest-wins tracker. "+
-		"A line is non-trivial when it contains a quote, $, #, CR or tab; distinct = distinct line text", nScripts, nCases, nStd, nCmp, nArgs)
+		"Script level: %d multi-line scripts with a long line first / in the middle / last (one plain or quoted word, several long words, thousands of words, a long comment, a long phase comment or blank line, a long env line, long values through ts.Setenv and ${VAR} / ${VAR@R}; 1 KiB ... 1 MiB around 4 KiB and 64 KiB; CRLF; last line without LF) with the model-free oracle every-line-runs (the rec command is seen once per line, in order, with the words known by construction), script_lines_tr of the model on every text, and run_script of the model on the long-line scripts the extracted tokenizer handles in linear time; "+
+		"%d histories of 10-23 steps (env K=V repeated in non-sorted order, several assignments per line, env NAME, the argument-less env, ts.Setenv, cd, exists / grep / cmp / stdout / [exec:] lines that only read, six Setup modes, one run in five with testing.Verbose, i.e. with the listing at the start) where after EVERY step $K ${K} ${K@R} ts.Getenv and the environment / PWD of an executed program are compared with the latest assignment known by construction (history-latest-wins) and with the model; %d histories ending in the listing, read from T.Log (listing-shows-latest, env_listing); every script is also read as a history by the model (histholds: hrun reproduces the state, history_holds is true). "+
+		"Dimensions of CONVENTIONS addendum 4: 1 state carried between calls (histories; every script of a batch shares one RunT call and the package-level execCache), 4 sizes past internal limits (lines and values past 4 KiB / 64 KiB / 1 MiB, thousands of words), 6 data that looks like syntax (CR / CRLF, NUL, invalid UTF-8, %%, quotes, $, # in values and words), 7 host environment (PATH / HOME / the variables of Params.Setup are part of the compared child environment), 8 (a changed source shape is reported by the regenerated constants / fingerprints while every oracle still runs); 2, 3, 5 do not apply to a pure tokenizer / environment property. "+
+		"A line is non-trivial when it contains a quote, $, #, CR or tab; distinct = distinct line text", nScripts, nCases, nStd, nCmp, nArgs, nLongScripts, nHistories, nListings)
 	res.Write(f.Out)
 }
 
@@ -2370,6 +2414,9 @@ func (rn *runner) replay(v common.Violation) {
 		return
 	case "history":
 		rn.replayHistory(v)
+		return
+	case "listing":
+		rn.replayListing(v)
 		return
 	}
 	if arch, ok := v.Input["archive"]; ok {
